@@ -58,7 +58,7 @@ Proof. unfold enter_ctx. destruct (get_task t s); destruct c; qq. Qed.
 Lemma quiet_pause_plain t c s : quiet s (pause_plain t c s).
 Proof. destruct c; unfold pause_plain; qq. Qed.
 Lemma quiet_exit_ctx t c s : quiet s (exit_ctx t c s).
-Proof. unfold exit_ctx. eapply quiet_trans; [|apply quiet_pause_plain]. destruct (get_task t s); qq. Qed.
+Proof. unfold exit_ctx. destruct (get_task t s) as [tk|]; [destruct (tk_cact tk)|]; try (eapply quiet_trans; [|apply quiet_pause_plain]); qq. Qed.
 
 Lemma quiet_fold {X} (f : st -> X -> st) l : (forall s x, quiet s (f s x)) -> forall s, quiet s (fold_left f l s).
 Proof. intros H. induction l as [|x l IH]; intros s; cbn; [apply quiet_refl|]. eapply quiet_trans; [apply H|apply IH]. Qed.
